@@ -8,8 +8,8 @@ THEOREMS = ["C23_row_search", "C23_row_search_none", "C23_row_search_some"]
 def run(ctx):
     proofs_ok = vlib.coq_prove(ctx, os.path.join(vlib.COQ, "Properties", "C23.v"), THEOREMS)
     oracle, corr = [], []
-    ok = vlib.build_driver(ctx)
-    rel = vlib.build_harness(ctx, ["rowrun"]) if ok else None
+    exe = vlib.build_driver(ctx, "row")
+    rel = vlib.build_harness(ctx, ["rowrun"]) if exe else None
     if rel is None:
         corr.append(("build failed", ctx.notes[-1:]))
     else:
@@ -21,7 +21,7 @@ def run(ctx):
             rc, out = vlib.sh([os.path.join(rel, "rowrun"), "--seed", str(ctx.seed), "--random", str(n), "--out", tr])
             if rc != 0:
                 corr.append(("rowrun failed rc=%d" % rc, [out[-500:]]))
-        mism, summ = vlib.run_driver(ctx, "row", tr)
+        mism, summ = vlib.run_driver(ctx, exe, "row", tr)
         ctx.suites.append({"suite": "rowrun: compiled first_zeros_aligned vs extracted fza (correspondence) and row_spec (oracle)",
                            "evaluations": summ.get("evaluations", 0), "distinct": summ.get("found", 0),
                            "distinct_inputs": summ.get("distinct", 0), "orders": "0..6"})
